@@ -7,8 +7,6 @@ use serde_json::{Value, json};
 use std::cell::RefCell;
 use std::collections::{BTreeMap, BTreeSet};
 use std::rc::Rc;
-use std::sync::atomic::{AtomicU64, Ordering};
-use std::sync::{Arc, Mutex};
 use std::time::Instant;
 
 pub struct CheckSpec {
@@ -99,7 +97,7 @@ struct Agg {
     runs: u64,
     evaluations: u64,
     steps: u64,
-    counters: BTreeMap<&'static str, u64>,
+    counters: BTreeMap<String, u64>,
     sigs: BTreeSet<u64>,
     samples: Vec<(u64, String)>,
     checked: u64,
@@ -158,61 +156,178 @@ fn is_known(known: &[KnownFinding], v: &Violation) -> bool {
         .any(|k| k.property == v.property && k.clause == v.clause)
 }
 
-/// Runs a batch in a child process so that a crash of the code under test
-/// (SIGSEGV in generated machine code, abort) is itself reported as a
-/// violation with a replayable seed; returns the process exit code
+/// Runs a batch.  The parent process spawns one worker *process* per job;
+/// every worker executes its share of the run indices strictly one at a time
+/// (each run on a fresh OS thread), so that simulated runs never share a
+/// process: process-wide state of the code under test cannot leak between
+/// runs, a crash kills only one worker and is attributed to the run it was
+/// executing, and a violation found in a batch replays in isolation.
+/// Returns the process exit code.
 pub fn check(spec: &CheckSpec, tier: Tier) -> i32 {
-    if std::env::var("VERIF_CHILD").is_ok() {
-        return check_inner(spec, tier);
+    if let Ok(w) = std::env::var("VERIF_WORKER") {
+        let mut it = w.split('/');
+        let k: u64 = it.next().and_then(|s| s.parse().ok()).unwrap_or(0);
+        let j: u64 = it.next().and_then(|s| s.parse().ok()).unwrap_or(1);
+        return worker(spec, tier, k, j.max(1));
     }
-    let dir = verif_root().join("sim").join("target");
+    let seed = verif_seed();
+    let total = batch_total(spec, tier);
+    let njobs = jobs().max(1) as u64;
+    println!(
+        "VERIF_SEED={seed} property={} engine={} tier={} runs={total} jobs={njobs}",
+        spec.prop,
+        spec.engine,
+        tier.name(),
+    );
+    let known = load_known();
+    let dir = verif_root()
+        .join("sim")
+        .join("target")
+        .join(format!("batch-{}", std::process::id()));
+    let _ = std::fs::remove_dir_all(&dir);
     let _ = std::fs::create_dir_all(&dir);
-    let progress = dir.join(format!("progress-{}.txt", std::process::id()));
-    let _ = std::fs::write(&progress, vec![b' '; 64 * 32]);
     let exe = std::env::current_exe().unwrap();
     let t0 = Instant::now();
-    let status = std::process::Command::new(&exe)
-        .args(["check", spec.prop, tier.name()])
-        .env("VERIF_CHILD", "1")
-        .env("VERIF_PROGRESS", &progress)
-        .status();
-    let code = match &status {
-        Ok(s) => s.code(),
-        Err(_) => None,
-    };
-    if let Some(c) = code {
-        if c == 0 || c == 1 || c == 2 {
-            let _ = std::fs::remove_file(&progress);
-            return c;
+    let mut children = vec![];
+    for k in 0..njobs {
+        let c = std::process::Command::new(&exe)
+            .args(["check", spec.prop, tier.name()])
+            .env("VERIF_WORKER", format!("{k}/{njobs}"))
+            .env("VERIF_BATCH_DIR", &dir)
+            .env("VERIF_CHILD", "1")
+            .stdout(std::process::Stdio::null())
+            .spawn();
+        children.push(c);
+    }
+    let mut statuses = vec![];
+    for c in children {
+        statuses.push(c.ok().and_then(|mut c| c.wait().ok()));
+    }
+    let wall = t0.elapsed().as_secs_f64();
+
+    // merge what the workers wrote
+    let mut agg = Agg::default();
+    let mut capped = false;
+    let mut found: Vec<(u64, Vec<u32>, Vec<Violation>)> = vec![];
+    let mut errors: Vec<(u64, String)> = vec![];
+    let mut crashed: Vec<u64> = vec![];
+    for k in 0..njobs {
+        let ok = matches!(
+            statuses[k as usize].as_ref().and_then(|s| s.code()),
+            Some(0)
+        );
+        let text = std::fs::read_to_string(dir.join(format!("agg-{k}.json")));
+        match (ok, text.ok().and_then(|t| serde_json::from_str::<Value>(&t).ok())) {
+            (true, Some(j)) => {
+                agg.runs += j["runs"].as_u64().unwrap_or(0);
+                agg.evaluations += j["evaluations"].as_u64().unwrap_or(0);
+                agg.steps += j["steps"].as_u64().unwrap_or(0);
+                agg.checked += j["checked"].as_u64().unwrap_or(0);
+                agg.skipped += j["skipped"].as_u64().unwrap_or(0);
+                agg.hash ^= j["hash"]
+                    .as_str()
+                    .and_then(|s| u64::from_str_radix(s, 16).ok())
+                    .unwrap_or(0);
+                capped |= j["capped"].as_bool().unwrap_or(false);
+                if let Some(m) = j["counters"].as_object() {
+                    for (k, v) in m {
+                        *agg.counters.entry(k.clone()).or_insert(0) +=
+                            v.as_u64().unwrap_or(0);
+                    }
+                }
+                if let Some(m) = j["known"].as_object() {
+                    for (k, v) in m {
+                        *agg.known.entry(k.clone()).or_insert(0) +=
+                            v.as_u64().unwrap_or(0);
+                    }
+                }
+                if let Some(a) = j["sigs"].as_array() {
+                    agg.sigs.extend(a.iter().filter_map(|v| v.as_u64()));
+                }
+                if let Some(a) = j["samples"].as_array() {
+                    for smp in a {
+                        agg.samples.push((
+                            smp[0].as_u64().unwrap_or(0),
+                            smp[1].as_str().unwrap_or("").to_string(),
+                        ));
+                    }
+                }
+                if let Some(i) = j["found"]["index"].as_u64() {
+                    let trace = j["found"]["trace"]
+                        .as_array()
+                        .map(|a| {
+                            a.iter()
+                                .map(|v| v.as_u64().unwrap_or(0) as u32)
+                                .collect()
+                        })
+                        .unwrap_or_default();
+                    let vs = j["found"]["violations"]
+                        .as_array()
+                        .map(|a| {
+                            a.iter()
+                                .map(|v| Violation {
+                                    property: spec.prop,
+                                    clause: v["clause"]
+                                        .as_str()
+                                        .unwrap_or("")
+                                        .to_string(),
+                                    detail: v["detail"]
+                                        .as_str()
+                                        .unwrap_or("")
+                                        .to_string(),
+                                })
+                                .collect()
+                        })
+                        .unwrap_or_default();
+                    found.push((i, trace, vs));
+                }
+                if let Some(i) = j["error"]["index"].as_u64() {
+                    errors.push((
+                        i,
+                        j["error"]["msg"].as_str().unwrap_or("").to_string(),
+                    ));
+                }
+            }
+            _ => {
+                // the worker died: the run it was executing is the suspect
+                let p = std::fs::read_to_string(dir.join(format!("progress-{k}")))
+                    .unwrap_or_default();
+                if let Ok(i) = p.trim().parse::<u64>() {
+                    crashed.push(i);
+                } else {
+                    errors.push((u64::MAX, format!("worker {k} died before its first run")));
+                }
+            }
         }
     }
-    // abnormal termination: find the run that kills the process
-    eprintln!("batch process terminated abnormally ({status:?}); isolating the run");
-    let text = std::fs::read_to_string(&progress).unwrap_or_default();
-    let _ = std::fs::remove_file(&progress);
-    let mut cands: Vec<u64> = text
-        .split_whitespace()
-        .filter_map(|t| t.parse().ok())
-        .collect();
-    cands.sort();
-    cands.dedup();
-    let seed = verif_seed();
-    for i in cands {
+    let _ = std::fs::remove_dir_all(&dir);
+    agg.samples.sort();
+    found.sort_by_key(|f| f.0);
+    errors.sort();
+    crashed.sort();
+    let first_found = found.first().map(|f| f.0).unwrap_or(u64::MAX);
+
+    // a crash of the code under test is a violation, attributed to its run
+    for i in crashed {
+        if i > first_found {
+            break;
+        }
         let st = std::process::Command::new(&exe)
             .args(["one", spec.prop, tier.name(), &i.to_string()])
             .env("VERIF_CHILD", "1")
             .stdout(std::process::Stdio::null())
             .stderr(std::process::Stdio::null())
             .status();
-        let crashed = match &st {
+        let dies = match &st {
             Ok(s) => !matches!(s.code(), Some(0) | Some(1) | Some(2)),
             Err(_) => false,
         };
-        if crashed {
+        if dies {
             let rs = run_seed(spec, seed, i);
-            let dir = verif_root().join("replays");
-            let _ = std::fs::create_dir_all(&dir);
-            let path = dir.join(format!("{}-{}-crash-{}.json", spec.prop, seed, i));
+            let rdir = verif_root().join("replays");
+            let _ = std::fs::create_dir_all(&rdir);
+            let path =
+                rdir.join(format!("{}-{}-crash-{}.json", spec.prop, seed, i));
             let j = json!({
                 "property": spec.prop,
                 "clause": "process_crash",
@@ -225,197 +340,22 @@ pub fn check(spec: &CheckSpec, tier: Tier) -> i32 {
                 "mode": "seed",
                 "replay_cmd": format!("/verif/run.sh replay {}", path.display()),
             });
-            std::fs::write(&path, serde_json::to_string_pretty(&j).unwrap()).unwrap();
+            std::fs::write(&path, serde_json::to_string_pretty(&j).unwrap())
+                .unwrap();
             println!("VIOLATION property={} replay={}", spec.prop, path.display());
-            println!("  clause=process_crash detail=run {i} kills the process ({st:?})");
-            let agg = Agg {
-                runs: i + 1,
-                evaluations: i + 1,
-                ..Default::default()
-            };
-            write_evidence(spec, tier, seed, &agg, t0.elapsed().as_secs_f64(), 1, i + 1);
+            println!(
+                "  clause=process_crash detail=run {i} kills the process ({st:?})"
+            );
+            write_evidence(spec, tier, seed, &agg, wall, 1, total);
             return 1;
         }
+        eprintln!(
+            "HARNESS-ERROR: a worker died while executing run {i}, but the run alone does not"
+        );
+        return 2;
     }
-    eprintln!("HARNESS-ERROR: batch process died but no single run reproduces it");
-    2
-}
-
-/// `one <prop> <tier> <index>`: a single run, for crash isolation
-pub fn one(spec: &CheckSpec, tier: Tier, index: u64) -> i32 {
-    let rs = run_seed(spec, verif_seed(), index);
-    match one_run(spec, tier, rs, None) {
-        Ok(r) if r.violations.is_empty() => 0,
-        Ok(_) => 1,
-        Err(_) => 2,
-    }
-}
-
-fn check_inner(spec: &CheckSpec, tier: Tier) -> i32 {
-    let seed = verif_seed();
-    let total = std::env::var("VERIF_RUNS")
-        .ok()
-        .and_then(|s| s.parse().ok())
-        .unwrap_or(match tier {
-            Tier::Quick => spec.runs_quick,
-            Tier::Thorough => spec.runs_thorough,
-        });
-    let wall_cap: f64 = std::env::var("VERIF_WALL_CAP_S")
-        .ok()
-        .and_then(|s| s.parse().ok())
-        .unwrap_or(match tier {
-            Tier::Quick => 240.0,
-            Tier::Thorough => 3300.0,
-        });
-    println!(
-        "VERIF_SEED={seed} property={} engine={} tier={} runs={total} jobs={}",
-        spec.prop,
-        spec.engine,
-        tier.name(),
-        jobs()
-    );
-    let known = load_known();
-    let t0 = Instant::now();
-    let next = AtomicU64::new(0);
-    let stop_after = AtomicU64::new(u64::MAX);
-    let capped = AtomicU64::new(0);
-    let agg = Mutex::new(Agg::default());
-    let found: Mutex<Vec<(u64, RunReport)>> = Mutex::new(vec![]);
-    let errors: Mutex<Vec<(u64, String)>> = Mutex::new(vec![]);
-    let known = Arc::new(known);
-
-    let progress = std::env::var("VERIF_PROGRESS")
-        .ok()
-        .and_then(|p| std::fs::OpenOptions::new().write(true).open(p).ok());
-    let progress = &progress;
-    std::thread::scope(|s| {
-        for slot in 0..jobs() {
-            let next = &next;
-            let stop_after = &stop_after;
-            let capped = &capped;
-            let agg = &agg;
-            let found = &found;
-            let errors = &errors;
-            let known = &known;
-            s.spawn(move || {
-                let mut local = Agg::default();
-                loop {
-                    let i = next.fetch_add(1, Ordering::Relaxed);
-                    if let Some(f) = progress {
-                        use std::os::unix::fs::FileExt;
-                        let _ = f.write_at(
-                            format!("{i:>30} \n").as_bytes(),
-                            (slot as u64 % 64) * 32,
-                        );
-                    }
-                    if i >= total || i > stop_after.load(Ordering::Relaxed) {
-                        break;
-                    }
-                    if t0.elapsed().as_secs_f64() > wall_cap {
-                        capped.fetch_max(1, Ordering::Relaxed);
-                        break;
-                    }
-                    let rs = run_seed(spec, seed, i);
-                    match one_run(spec, tier, rs, None) {
-                        Err(e) => {
-                            errors.lock().unwrap().push((i, e));
-                            stop_after.fetch_min(i, Ordering::Relaxed);
-                        }
-                        Ok(rep) => {
-                            local.runs += 1;
-                            local.evaluations += rep.evaluations;
-                            local.steps += rep.steps;
-                            local.checked += rep.checked_oracle;
-                            local.skipped += rep.skipped_oracle;
-                            local.hash ^= mix(i, rep.log_hash);
-                            if let Ok(p) = std::env::var("VERIF_DUMP") {
-                                use std::io::Write;
-                                if let Ok(mut f) = std::fs::OpenOptions::new()
-                                    .append(true)
-                                    .create(true)
-                                    .open(p)
-                                {
-                                    let mut smp = rep.sample.clone();
-                                    smp.truncate(120);
-                                    let line = format!(
-                                        "{i} {:016x} {} {}\n",
-                                        rep.log_hash,
-                                        rep.trace.len(),
-                                        smp
-                                    );
-                                    let _ = f.write_all(line.as_bytes());
-                                }
-                            }
-                            for (k, v) in &rep.counters {
-                                *local.counters.entry(k).or_insert(0) += v;
-                            }
-                            local.sigs.extend(rep.sigs.iter().copied());
-                            if i < 3 {
-                                let ev: Vec<String> = rep
-                                    .events
-                                    .iter()
-                                    .take(40)
-                                    .map(|(s, a, b)| format!("{s}({a},{b})"))
-                                    .collect();
-                                local.samples.push((
-                                    i,
-                                    format!(
-                                        "{} || first events: {} || choices drawn: {}",
-                                        rep.sample,
-                                        ev.join(" "),
-                                        rep.trace.len()
-                                    ),
-                                ));
-                            }
-                            let mut unknown = false;
-                            for v in &rep.violations {
-                                if is_known(&known, v) {
-                                    *local
-                                        .known
-                                        .entry(format!(
-                                            "property={} clause={}",
-                                            v.property, v.clause
-                                        ))
-                                        .or_insert(0) += 1;
-                                } else {
-                                    unknown = true;
-                                }
-                            }
-                            if unknown {
-                                stop_after.fetch_min(i, Ordering::Relaxed);
-                                found.lock().unwrap().push((i, rep));
-                            }
-                        }
-                    }
-                }
-                let mut a = agg.lock().unwrap();
-                a.runs += local.runs;
-                a.evaluations += local.evaluations;
-                a.steps += local.steps;
-                a.checked += local.checked;
-                a.skipped += local.skipped;
-                a.hash ^= local.hash;
-                for (k, v) in local.counters {
-                    *a.counters.entry(k).or_insert(0) += v;
-                }
-                a.sigs.extend(local.sigs);
-                a.samples.extend(local.samples);
-                for (k, v) in local.known {
-                    *a.known.entry(k).or_insert(0) += v;
-                }
-            });
-        }
-    });
-    let wall = t0.elapsed().as_secs_f64();
-    let mut agg = agg.into_inner().unwrap();
-    agg.samples.sort();
-    let mut errors = errors.into_inner().unwrap();
-    errors.sort();
-    let mut found = found.into_inner().unwrap();
-    found.sort_by_key(|f| f.0);
-
     if let Some((i, e)) = errors.first() {
-        if found.first().map(|f| f.0 > *i).unwrap_or(true) {
+        if *i <= first_found {
             eprintln!("HARNESS-ERROR run={i} {e}");
             return 2;
         }
@@ -423,22 +363,22 @@ fn check_inner(spec: &CheckSpec, tier: Tier) -> i32 {
 
     let mut violations = 0;
     let mut exit = 0;
-    if let Some((i, rep)) = found.into_iter().next() {
-        let v = rep
-            .violations
+    if let Some((i, trace0, vs)) = found.into_iter().next() {
+        let v = vs
             .iter()
             .find(|v| !is_known(&known, v))
-            .unwrap()
-            .clone();
+            .cloned()
+            .unwrap_or_else(|| vs[0].clone());
         println!(
             "violation candidate: run={i} property={} clause={} : {}",
             v.property, v.clause, v.detail
         );
         let rs = run_seed(spec, seed, i);
         if v.clause == HANG_CLAUSE {
-            let dir = verif_root().join("replays");
-            let _ = std::fs::create_dir_all(&dir);
-            let path = dir.join(format!("{}-{}-hang-{}.json", spec.prop, seed, i));
+            let rdir = verif_root().join("replays");
+            let _ = std::fs::create_dir_all(&rdir);
+            let path =
+                rdir.join(format!("{}-{}-hang-{}.json", spec.prop, seed, i));
             let j = json!({
                 "property": spec.prop,
                 "clause": HANG_CLAUSE,
@@ -451,18 +391,19 @@ fn check_inner(spec: &CheckSpec, tier: Tier) -> i32 {
                 "mode": "seed",
                 "replay_cmd": format!("/verif/run.sh replay {}", path.display()),
             });
-            std::fs::write(&path, serde_json::to_string_pretty(&j).unwrap()).unwrap();
+            std::fs::write(&path, serde_json::to_string_pretty(&j).unwrap())
+                .unwrap();
             println!("VIOLATION property={} replay={}", spec.prop, path.display());
             println!("  clause={} detail={}", v.clause, v.detail);
             write_evidence(spec, tier, seed, &agg, wall, 1, total);
-            // stuck threads never finish: leave without joining them
-            std::process::exit(1);
+            return 1;
         }
+        // minimise here, in the parent: no other simulation shares the process
         let (trace, final_rep, replays) =
-            minimise(spec, tier, rs, rep.trace.clone(), &v);
+            minimise(spec, tier, rs, trace0.clone(), &v);
         println!(
             "minimised choice trace {} -> {} values in {replays} replays",
-            rep.trace.len(),
+            trace0.len(),
             trace.len()
         );
         let fv = final_rep
@@ -473,10 +414,10 @@ fn check_inner(spec: &CheckSpec, tier: Tier) -> i32 {
             .unwrap_or(v.clone());
         let path = write_replay(spec, tier, seed, i, rs, &trace, &final_rep, &fv);
         // confirm in a fresh process
-        let exe = std::env::current_exe().unwrap();
-        let out = std::process::Command::new(exe)
+        let out = std::process::Command::new(&exe)
             .arg("replay")
             .arg(&path)
+            .env("VERIF_CHILD", "1")
             .output();
         let confirmed = match out {
             Ok(o) => {
@@ -492,11 +433,7 @@ fn check_inner(spec: &CheckSpec, tier: Tier) -> i32 {
             );
             return 2;
         }
-        println!(
-            "VIOLATION property={} replay={}",
-            fv.property,
-            path.display()
-        );
+        println!("VIOLATION property={} replay={}", fv.property, path.display());
         println!("  clause={} detail={}", fv.clause, fv.detail);
         violations = 1;
         exit = 1;
@@ -509,7 +446,6 @@ fn check_inner(spec: &CheckSpec, tier: Tier) -> i32 {
             .unwrap_or_default();
         println!("KNOWN-FINDING: {text} (hit {n} times in this batch)");
     }
-
     write_evidence(spec, tier, seed, &agg, wall, violations, total);
     println!(
         "runs={} executions={} steps={} distinct_schedules={} wall={:.1}s batch_hash={:016x}{}",
@@ -519,13 +455,185 @@ fn check_inner(spec: &CheckSpec, tier: Tier) -> i32 {
         agg.sigs.len(),
         wall,
         agg.hash,
-        if capped.load(Ordering::Relaxed) != 0 {
+        if capped {
             " (wall cap reached, batch truncated)"
         } else {
             ""
         }
     );
     exit
+}
+
+fn batch_total(spec: &CheckSpec, tier: Tier) -> u64 {
+    std::env::var("VERIF_RUNS")
+        .ok()
+        .and_then(|s| s.parse().ok())
+        .unwrap_or(match tier {
+            Tier::Quick => spec.runs_quick,
+            Tier::Thorough => spec.runs_thorough,
+        })
+}
+
+/// `one <prop> <tier> <index>`: a single run, for crash isolation
+pub fn one(spec: &CheckSpec, tier: Tier, index: u64) -> i32 {
+    let rs = run_seed(spec, verif_seed(), index);
+    match one_run(spec, tier, rs, None) {
+        Ok(r) if r.violations.is_empty() => 0,
+        Ok(_) => 1,
+        Err(_) => 2,
+    }
+}
+
+/// Worker process `k` of `j`: run indices k, k+j, k+2j, ... one at a time
+fn worker(spec: &CheckSpec, tier: Tier, k: u64, j: u64) -> i32 {
+    let seed = verif_seed();
+    let total = batch_total(spec, tier);
+    let wall_cap: f64 = std::env::var("VERIF_WALL_CAP_S")
+        .ok()
+        .and_then(|s| s.parse().ok())
+        .unwrap_or(match tier {
+            Tier::Quick => 240.0,
+            Tier::Thorough => 3300.0,
+        });
+    let dir = std::path::PathBuf::from(
+        std::env::var("VERIF_BATCH_DIR").unwrap_or_else(|_| ".".into()),
+    );
+    let known = load_known();
+    let t0 = Instant::now();
+    let mut local = Agg::default();
+    let mut capped = false;
+    let mut found = Value::Null;
+    let mut error = Value::Null;
+    let progress = dir.join(format!("progress-{k}"));
+    // the smallest index at which some worker found a violation
+    let stop_after = |dir: &std::path::Path| -> u64 {
+        let mut m = u64::MAX;
+        if let Ok(rd) = std::fs::read_dir(dir) {
+            for e in rd.flatten() {
+                if let Some(n) = e.file_name().to_str() {
+                    if let Some(i) = n.strip_prefix("stop-") {
+                        if let Ok(i) = i.parse::<u64>() {
+                            m = m.min(i);
+                        }
+                    }
+                }
+            }
+        }
+        m
+    };
+    let mut i = k;
+    while i < total {
+        if i > stop_after(&dir) {
+            break;
+        }
+        if t0.elapsed().as_secs_f64() > wall_cap {
+            capped = true;
+            break;
+        }
+        let _ = std::fs::write(&progress, format!("{i}\n"));
+        let rs = run_seed(spec, seed, i);
+        match one_run(spec, tier, rs, None) {
+            Err(e) => {
+                let _ = std::fs::write(dir.join(format!("stop-{i}")), "");
+                error = json!({"index": i, "msg": e});
+                break;
+            }
+            Ok(rep) => {
+                local.runs += 1;
+                local.evaluations += rep.evaluations;
+                local.steps += rep.steps;
+                local.checked += rep.checked_oracle;
+                local.skipped += rep.skipped_oracle;
+                local.hash ^= mix(i, rep.log_hash);
+                if let Ok(p) = std::env::var("VERIF_DUMP") {
+                    use std::io::Write;
+                    if let Ok(mut f) = std::fs::OpenOptions::new()
+                        .append(true)
+                        .create(true)
+                        .open(p)
+                    {
+                        let mut smp = rep.sample.clone();
+                        smp.truncate(120);
+                        let line = format!(
+                            "{i} {:016x} {} {}\n",
+                            rep.log_hash,
+                            rep.trace.len(),
+                            smp
+                        );
+                        let _ = f.write_all(line.as_bytes());
+                    }
+                }
+                for (c, v) in &rep.counters {
+                    *local.counters.entry(c.to_string()).or_insert(0) += v;
+                }
+                local.sigs.extend(rep.sigs.iter().copied());
+                if i < 3 {
+                    let ev: Vec<String> = rep
+                        .events
+                        .iter()
+                        .take(40)
+                        .map(|(s, a, b)| format!("{s}({a},{b})"))
+                        .collect();
+                    local.samples.push((
+                        i,
+                        format!(
+                            "{} || first events: {} || choices drawn: {}",
+                            rep.sample,
+                            ev.join(" "),
+                            rep.trace.len()
+                        ),
+                    ));
+                }
+                let mut unknown = false;
+                for v in &rep.violations {
+                    if is_known(&known, v) {
+                        *local
+                            .known
+                            .entry(format!(
+                                "property={} clause={}",
+                                v.property, v.clause
+                            ))
+                            .or_insert(0) += 1;
+                    } else {
+                        unknown = true;
+                    }
+                }
+                if unknown {
+                    let _ = std::fs::write(dir.join(format!("stop-{i}")), "");
+                    found = json!({
+                        "index": i,
+                        "trace": rep.trace,
+                        "violations": rep.violations.iter().map(|v| json!({
+                            "clause": v.clause, "detail": v.detail,
+                        })).collect::<Vec<_>>(),
+                    });
+                    break;
+                }
+            }
+        }
+        i += j;
+    }
+    let out = json!({
+        "runs": local.runs,
+        "evaluations": local.evaluations,
+        "steps": local.steps,
+        "checked": local.checked,
+        "skipped": local.skipped,
+        "hash": format!("{:016x}", local.hash),
+        "capped": capped,
+        "counters": local.counters,
+        "known": local.known,
+        "sigs": local.sigs.iter().collect::<Vec<_>>(),
+        "samples": local.samples.iter().map(|(i, s)| json!([i, s])).collect::<Vec<_>>(),
+        "found": found,
+        "error": error,
+    });
+    let _ = std::fs::write(
+        dir.join(format!("agg-{k}.json")),
+        serde_json::to_string(&out).unwrap(),
+    );
+    // a hung run leaves a stuck thread behind: leave without joining it
+    std::process::exit(0);
 }
 
 fn same_violation(rep: &RunReport, v: &Violation) -> bool {
